@@ -53,7 +53,7 @@ def h_set(ctx, n):
     ctx.vc("caller's lists unchanged", True)
 
 
-@P.harness("set/input-forms", cases=[dict(form=f, n=k) for f in ("flat", "flat-dangling", "copy", "tuples") for k in (2, 3)],
+@P.harness("set/input-forms", cases=[dict(form=f, n=k) for f in ("flat", "flat-dangling", "copy", "tuples", "copy-source-re-aimed", "source-copy-re-aimed") for k in (2, 3)],
            functions=[IP + ".set", IP + ".__init__"], crosscheck=5, timeout=60)
 def h_forms(ctx, form, n):
     """whatever input form is used -- x1, y1, x2, y2, ... as separate arguments (a dangling last value is dropped), two tuples, or
@@ -66,13 +66,26 @@ def h_forms(ctx, form, n):
         ip = ctx.new(IP, *(flat + [ctx.real("extra", -10, 10)]))
     elif form == "tuples":
         ip = ctx.new(IP, tuple(xs), tuple(ys))
-    else:
+    elif form == "copy":
         src = ctx.new(IP, list(xs), list(ys))
         ip = ctx.new(IP, src)
+    elif form == "copy-source-re-aimed":
+        # a copy and its source are independent objects: re-aiming either with set() leaves the other as it was
+        src = ctx.new(IP, list(xs), list(ys))
+        ip = ctx.new(IP, src)
+        ctx.method(src, "set", [xs[i] + 100 for i in range(n)], [2 * ys[i] + 1 for i in range(n)])
+    else:
+        ip = ctx.new(IP, list(xs), list(ys))
+        cp = ctx.new(IP, ip)
+        ctx.method(cp, "set", [xs[i] + 100 for i in range(n)], [2 * ys[i] + 1 for i in range(n)])
     X, Y = ctx.field(ip, "_x"), ctx.field(ip, "_y")
     ctx.vc("the table holds the n given pairs", len(X) == n and len(Y) == n)
     if len(X) == n and len(Y) == n:
         ctx.vc("in ascending order, each with its own ordinate", and_(*[and_(X[i] == xs[i], Y[i] == ys[i]) for i in range(n)]))
+        xq = ctx.real("xq", -1000, 1000, sample=(-10, 10))
+        ctx.assume(and_(xq >= xs[0], xq <= xs[-1]))
+        ref = ctx.new(IP, list(xs), list(ys))
+        ctx.vc("and interpolates like a freshly built object", ctx.method(ip, "__call__", xq) == ctx.method(ref, "__call__", xq))
 
 
 @P.harness("set/too-few-points", crosscheck=0)
@@ -455,6 +468,22 @@ def b_tables(rng, tier):
         except Exception as ex:
             ok, det = False, repr(ex)
         yield ((n, tuple(X[:4]), deg), ok, det)
+    # brackets whose middle is a stationary point of the interpolant (the first Newton step has no slope to use): the sign change
+    # is there, so a root inside the bracket must be returned
+    for k in (3, 5):
+        for c in (0.0, 1.5, -7.25):
+            for delta in (1e-4, -1e-4, 1e-2, 0.3, -0.5):
+                xs = [c + i for i in range(-2, k - 1)]
+                ok, det = True, None
+                try:
+                    ip = Interpolation(xs, [(x - c) ** k - delta for x in xs])
+                    for (l, h) in ((c - 1.0, c + 1.0), (c + 1.0, c - 1.0), (c - 1.5, c + 1.5)):
+                        r = ip.root(l, h)
+                        if not (min(l, h) - 1e-9 <= r <= max(l, h) + 1e-9) or abs(ip(r)) > 2 * ip.get_tolerance():
+                            ok, det = False, ("root", l, h, r)
+                except Exception as ex:
+                    ok, det = False, repr(ex)
+                yield (("stationary-midpoint", k, c, delta), ok, det)
     # the conjunction helpers on uniformly moving bodies (the interpolated difference is then linear: its zero is known)
     from pymeeus.Angle import Angle
     from pymeeus.Coordinates import planetary_conjunction, planet_star_conjunction
